@@ -327,6 +327,7 @@ func (vc *VC) mergeStates(sts []*State) *State {
 func mergeVals(conds []Term, vs []Val) Val {
 	r := vs[len(vs)-1]
 	r.C = nil
+	r.NZ = nil
 	allSameC := true
 	for _, v := range vs {
 		if v.C == nil || vs[0].C == nil || v.C.Cmp(vs[0].C) != 0 {
@@ -345,6 +346,7 @@ func mergeVals(conds []Term, vs []Val) Val {
 func iteVal(c Term, a, b Val) Val {
 	r := b
 	r.C = nil
+	r.NZ = nil
 	if a.K == KPtr && b.K == KPtr && (a.Loc != nil || b.Loc != nil) {
 		if a.Loc != nil && b.Loc != nil && a.Loc.Kind == b.Loc.Kind && a.Loc.Kind == LElem && types.Identical(a.Loc.T, b.Loc.T) {
 			r.Loc = &Loc{Kind: LElem, Base: ite(c, a.Loc.Base, b.Loc.Base), Idx: ite(c, a.Loc.Idx, b.Loc.Idx), T: a.Loc.T}
